@@ -83,6 +83,25 @@ M = {
     "xr_listen_after_write": ("src/modules/xrcmd.c", "        listen(s2, 1);\n        snprintf(num, sizeof(num), \"%d\", lport);\n        if (write(s, num, strlen(num) + 1) != strlen(num) + 1) {", "        snprintf(num, sizeof(num), \"%d\", lport);\n        if (listen(s2, 1), write(s, num, strlen(num) + 1) != strlen(num) + 1) {"),
     "xr_write_before_connect": ("src/modules/xrcmd.c", "        rv = connect(s, (struct sockaddr *) &sin, sizeof(sin));", "        if (write(s, locuser, 0) < 0) { }\n        rv = connect(s, (struct sockaddr *) &sin, sizeof(sin));"),
     "xr_reply_any": ("src/modules/xrcmd.c", "    if (c != 0) {\n        /* retrieve error string", "    if (c != 0 && c != 1) {\n        /* retrieve error string"),
+    # harmless rewrites (expected verdict: exit 0, no VIOLATION)
+    "fix_hl_perm_reorder": ("src/pdsh/mod.c", """    if (  (st->st_uid != 0) && (st->st_uid != getuid())
+       && (st->st_uid != alt_uid))
+        return DIR_BAD_OWNER;
+    if ((st->st_mode & S_IWOTH) && !(st->st_mode & S_ISVTX))
+        return DIR_WORLD_WRITABLE;""", """    if ((st->st_mode & S_IWOTH) && !(st->st_mode & S_ISVTX))
+        return DIR_WORLD_WRITABLE;
+    if (st->st_uid != 0 && st->st_uid != getuid() && st->st_uid != alt_uid)
+        return DIR_BAD_OWNER;"""),
+    "fix_hl_one_write": ("src/modules/xrcmd.c", """    if (write(s, locuser, strlen(locuser) + 1) < 0
+       || write(s, remuser, strlen(remuser) + 1) < 0
+       || write(s, cmd, strlen(cmd) + 1) < 0) {""", """    {
+        size_t n1 = strlen(locuser) + 1, n2 = strlen(remuser) + 1, n3 = strlen(cmd) + 1;
+        char *req = malloc(n1 + n2 + n3);
+        memcpy(req, locuser, n1); memcpy(req + n1, remuser, n2); memcpy(req + n1 + n2, cmd, n3);
+        rv = write(s, req, n1 + n2 + n3);
+        free(req);
+    }
+    if (rv < 0) {"""),
     # repairs
     "fix_d10": ("src/common/pipecmd.c", "            p++;\n            switch (*p) {", "            p++;\n            if (*p == '\\0') {\n                xstrcatchar (&str, '%');\n                break;\n            }\n            switch (*p) {"),
     "fix_d11": ("src/common/pipecmd.c", "    char *str = NULL;\n\n    p = arg;", "    char *str = Strdup (\"\");\n\n    p = arg;"),
